@@ -16,7 +16,7 @@ RULE = ("two-stage runs: stage 1 builds the generated system fault-free, stage 2
 ASSUMPTIONS = wa.ASSUMPTIONS
 REAL_VS_STUB = wa.REAL_VS_STUB
 PROBES = wa.PROBES + ["atoms_supplied", "centres_supplied", "supplied_and_generated_in_one_system",
-                      "ignored_molecule_present", "ignored_molecule_not_last", "earlier_call_same_input_path", "pdb_input", "synthetic_centres", "ligand_placed_with_host", "resid_restart_inside_molecule", "split_with_supplied_atoms"]
+                      "ignored_molecule_present", "ignored_molecule_not_last", "earlier_call_same_input_path", "pdb_input", "synthetic_centres", "ligand_placed_with_host", "resid_restart_inside_molecule", "split_with_supplied_atoms", "start_on_supplied_residue", "pdb_input_without_box_record"]
 PROFILE = {"p_synth_centres": 0.25, "sol_p": 0.25, "p_pdb": 0.2, "p_pre_call": 0.3, "n_moltypes": (1, 3), "n_entries": (2, 4), "max_molecules": 8, "max_count": 3, "maxres": 7,
            "box_modes": ["cubic", "cubic", "noncubic", "density"], "faults": ["step", "start", "overlap"],
            "maxiter": [0, 1, 2, 800], "dilute_hint": True}
@@ -46,6 +46,15 @@ def gen_job(verif_seed, tier, index):
             return job
     if st.gen.random() < 0.15:
         jobgen.add_resid_restart(job, st.gen)
+    if st.gen.random() < 0.07:
+        # centres for all residues but those of the type the first molecule type begins with (-res), and -start on one
+        # of the supplied residues of such a molecule
+        mt0 = next(m for m in job["spec"]["moltypes"] if m["name"] == job["spec"]["molecules"][0][0])
+        ok = jobgen.add_coordinates(job, st.gen, dict(PROFILE, coord_modes=["meta_res"]), force_res=[mt0["residues"][0]])
+        if ok:
+            jobgen.add_start_on_supplied(job, st.gen)
+        job["two_stage"] = ok
+        return job
     if st.gen.random() < 0.08:
         # -split together with an atom-level structure (whole residues supplied, the rest built)
         ok = jobgen.add_coordinates(job, st.gen, dict(PROFILE, coord_modes=["prefix", "prefix", "full"], p_synth_centres=0.0))
@@ -55,6 +64,8 @@ def gen_job(verif_seed, tier, index):
         return job
     ok = jobgen.add_coordinates(job, st.gen, PROFILE)
     job["two_stage"] = ok
+    if ok and st.gen.random() < 0.3:
+        jobgen.add_start_on_supplied(job, st.gen)
     return job
 
 
@@ -63,6 +74,10 @@ def _nt(j, r):
         r["probes"]["synthetic_centres"] = 1
     if j["opts"].get("split"):
         r["probes"]["split_with_supplied_atoms"] = 1
+    if j.get("start_on_supplied"):
+        r["probes"]["start_on_supplied_residue"] = 1
+    if j.get("pdb_no_box"):
+        r["probes"]["pdb_input_without_box_record"] = 1
     if j.get("resid_restart"):
         r["probes"]["resid_restart_inside_molecule"] = 1
     if j.get("coord_ext") == "pdb":
